@@ -84,11 +84,11 @@ theorem callPlayer_history (Ok : Oracle M → Prop) (env : Env P M) (o : Oracle 
     (hcall : callPlayer env o c p = (.ok (pv, v), c')) :
     CacheInv Ok env c' ∧ c'.size = c.size ∧ c'.depth = c.depth ∧ c'.precise = c.precise ∧
     (c.size = (env.size p : Int)) ∧
-    ∃ (h : History P M) (rs : List (P × Int)) (eng eng0 : Eng M) (ms : List M) (st : Stats), (∀ x ∈ h, Ok x.2) ∧
+    ∃ (h : History P M) (rs : List (P × Int)) (eng eng0 : Eng M) (st : Stats), (∀ x ∈ h, Ok x.2) ∧
       runCalls (env.game (env.size p)) (playerCfg env.tableEntries c.depth c.precise) h
         (Eng.new (env.game (env.size p)) (playerCfg env.tableEntries c.depth c.precise)) = .ok (rs, eng0) ∧
       Search.analyze (env.game (env.size p)) (playerCfg env.tableEntries c.depth c.precise) o p eng0 =
-        .ok ((pv, v, st), eng) ∧ ms = pv ∧
+        .ok ((pv, v, st), eng) ∧
       runCalls (env.game (env.size p)) (playerCfg env.tableEntries c.depth c.precise) (h ++ [(p, o)])
         (Eng.new (env.game (env.size p)) (playerCfg env.tableEntries c.depth c.precise)) = .ok (rs ++ [(p, v)], eng) := by
   obtain ⟨size, depth, precise, player⟩ := c
@@ -119,7 +119,7 @@ theorem callPlayer_history (Ok : Oracle M → Prop) (env : Env P M) (o : Oracle 
           rcases List.mem_append.mp hx with hx | hx
           · exact hord x hx
           · simp only [List.mem_singleton] at hx; subst hx; exact ho
-        refine ⟨?_, rfl, rfl, rfl, ?_, h, rs, eng', eng, pv', st, hord, ?_, ?_, rfl, ?_⟩
+        refine ⟨?_, rfl, rfl, rfl, ?_, h, rs, eng', eng, st, hord, ?_, ?_, ?_⟩
         · intro pl hpl
           simp only [Option.some.injEq] at hpl
           subst hpl
@@ -205,7 +205,7 @@ theorem step_history (Ok : Oracle M → Prop) (env : Env P M) (s : Server M) (r 
         | error e => exact ⟨trivial, callPlayer_error_inv Ok env o _ p e c' hcp, hic⟩
         | ok x =>
           obtain ⟨pv, v⟩ := x
-          obtain ⟨hinv', _, _, _, _, h, rs, eng, _, _, _, hord, _, _, _, hrun⟩ := callPlayer_history Ok env o hr _ p hinv pv v c' hcp
+          obtain ⟨hinv', _, _, _, _, h, rs, eng, _, _, hord, _, _, hrun⟩ := callPlayer_history Ok env o hr _ p hinv pv v c' hcp
           rw [hd, hpr] at hrun
           exact ⟨⟨p, hp, h, rs, eng, hord, hrun⟩, hinv', hic⟩
   | isInTak position o =>
@@ -225,7 +225,7 @@ theorem step_history (Ok : Oracle M → Prop) (env : Env P M) (s : Server M) (r 
           | error e => exact ⟨trivial, hac, callPlayer_error_inv Ok env o _ q e c' hcp⟩
           | ok x =>
             obtain ⟨pv, v⟩ := x
-            obtain ⟨hinv', _, _, _, _, h, rs, eng, _, _, _, hord, _, _, _, hrun⟩ := callPlayer_history Ok env o hr _ q hinv pv v c' hcp
+            obtain ⟨hinv', _, _, _, _, h, rs, eng, _, _, hord, _, _, hrun⟩ := callPlayer_history Ok env o hr _ q hinv pv v c' hcp
             rw [hd, hpr] at hrun
             simp only []
             by_cases hv : v > Facts.winThreshold
